@@ -36,6 +36,9 @@ TOOL_ID = 3           # sys.monitoring: 0 debugger, 1 coverage, 2 profiler, 5 op
 _mon = sys.monitoring
 
 
+THREAD_EXIT = "<thread-exit>"
+
+
 class Stuck(Exception):
     """A granted step did not reach its next scheduling point (blocked inside a step)."""
 
@@ -55,7 +58,7 @@ class _TS:
 
 
 class Controller:
-    def __init__(self, targets, role_of=None, blockers=(), split=None, timeout=30.0):
+    def __init__(self, targets, role_of=None, blockers=(), split=None, timeout=30.0, exit_roles=()):
         """targets: iterable of functions / code objects / (function, set_of_line_numbers).
         role_of: function name of a thread target -> role letter (default 'T').
         blockers: iterable of (compiled regex | str, predicate(frame, stopped_thread) -> bool)."""
@@ -78,6 +81,9 @@ class Controller:
         self._free = False
         self._active = False
         self._timeout = timeout
+        # roles whose threads get one more scheduling point "<thread-exit>" after their target function has
+        # returned: the thread is then still alive (Thread.is_alive() is True until the teardown is over)
+        self._exit_roles = set(exit_roles)
         self._orig_start = None
         self.log = []               # (thread name, label) of every executed step
 
@@ -124,6 +130,7 @@ class Controller:
 
     # ------------------------------------------------------------------ thread registration
     def _register(self, t, name=None):
+        role = None
         with self._cv:
             if name is None:
                 tgt = getattr(t, "_target", None)
@@ -140,6 +147,8 @@ class Controller:
         def run():
             try:
                 orig_run()
+                if role in ctl._exit_roles:
+                    ctl.pseudo_point(THREAD_EXIT)
             finally:
                 with ctl._cv:
                     ts.status = "done"
